@@ -92,8 +92,11 @@ def coverage_from(m, reps, nontrivial_key, rule):
 
 PROC_WRAPS = {
     "lp/process.c": ["msg_queue_insert", "msg_queue_extract", "msg_allocator_alloc", "msg_allocator_free",
-                     "model_allocator_checkpoint_restore", "fossil_lp_collect", "gvt_on_msg_extraction"],
+                     "model_allocator_checkpoint_restore", "fossil_lp_collect", "gvt_on_msg_extraction",
+                     "mpi_remote_msg_send", "mpi_remote_anti_msg_send", "msg_allocator_free_at_gvt"],
     "gvt/fossil.c": ["msg_allocator_free=vw_fossil_msg_allocator_free"],
+    "lp/lp.c": ["process_lp_init"],
+    "distributed/mpi.c": ["msg_queue_insert=vw_mpi_msg_queue_insert", "msg_allocator_alloc"],
 }
 
 
@@ -114,13 +117,18 @@ def apply_wraps(srcs, core, wraps):
             raise vc.EngineError("objcopy failed: " + p.stderr)
 
 
-def build_proc(d, san=False, name="h_proc"):
-    """h_proc: the real process.c / msg_queue.c / fossil.c / allocators driven step by step from one scheduler thread (no MPI,
-    no hooks on atomics: there is one thread); the calls the harness observes are redirected in the caller's object."""
-    srcs = [s for s in vc.core_sources() if s not in ("arch/thread.c", "distributed/mpi.c")] + ["distributed/no_mpi.c"]
+def build_proc(d, san=False, name="h_proc", remote=False):
+    """h_proc: the real process.c / msg_queue.c / fossil.c / allocators driven step by step from one scheduler thread (no
+    hooks on atomics: there is one thread); the calls the harness observes are redirected in the caller's object.
+    remote=True: the real distributed/mpi.c instead of no_mpi.c, against the MPI functions h_proc.c defines (wire pool)."""
+    if remote:
+        srcs = [s for s in vc.core_sources() if s != "arch/thread.c"]
+    else:
+        srcs = [s for s in vc.core_sources() if s not in ("arch/thread.c", "distributed/mpi.c")] + ["distributed/no_mpi.c"]
     core = vc.build_core(d, files=srcs, san=san, hook=False, extra=["-w"])
     apply_wraps(srcs, core, PROC_WRAPS)
-    objs = vc.build_objs(d, ["harness/h_proc.c", "engine/rsched.c"] + MODEL_SRC, san=san, extra=["-w", "-I" + os.path.join(vc.VERIF, "harness")])
+    objs = vc.build_objs(d, ["harness/h_proc.c", "engine/rsched.c"] + MODEL_SRC, san=san,
+                         extra=["-w", "-I" + os.path.join(vc.VERIF, "harness")] + (["-DHPROC_REMOTE"] if remote else []))
     return vc.link(os.path.join(d, name), objs + core, san=san)
 
 
@@ -155,6 +163,20 @@ def proc_scenarios(tier, part="all"):
                    pscen("zero2_nog", _pm(3, [3, 3, 0], [3, 3, 3], 1), ck=1, maxg=0, deadline=900, j=8),
                    pscen("ring_H5_nog", _pm(3, [2, 2, 2], [0, 0, 2], 4), ck=2, maxg=0, deadline=900, j=8)]
         return sc
+    if part == "remote":
+        # rm=1: LPs spread over 2 nodes (2 LPs: one each; 3 LPs: LP0, LP1 | LP2), remote events and remote anti-messages on a wire pool
+        # delivered in every order (anti-messages overtaking their events, several early anti-messages pending on one LP)
+        rs = [("r_a_ck1", A, 1, 0), ("r_a_ck3", A, 3, 0), ("r_b3_ck2", _pm(3, [7, 0, 1], [7, 2, 1], 3), 2, 0),
+              ("r_ties_ck1", _pm(2, [5, 1], [1, 5, 2], 2), 1, 0), ("r_tiebig", _pm(2, [9, 9], [9, 2, 9], 1), 1, 0),
+              ("r_zero_ck2", _pm(2, [3, 1], [2, 3, 1], 3), 2, 0), ("r_fan_ck1", _pm(2, [7, 1], [1, 7, 2], 2), 1, 0),
+              ("r_mem_ck2", _pm(2, [1, 2], [2, 1, 7], 3, M=1), 2, 0)]
+        sc = [pscen(n, m, ck=ck, glow=gl, deadline=240, j=2) for (n, m, ck, gl) in rs]
+        if tier != "quick":
+            rb = [("r_a_H4_ck2", _pm(2, [1, 2], [2, 1, 7], 4), 2, 1), ("r_b3_H4", _pm(3, [7, 0, 1], [7, 2, 1], 4), 1, 0),
+                  ("r_ring", _pm(3, [2, 0, 2], [0, 0, 2], 4), 1, 0), ("r_ties_H3", _pm(2, [5, 1], [1, 5, 2], 3), 2, 0)]
+            sc = [pscen(n, m, ck=ck, glow=1, deadline=600, j=4) for (n, m, ck, gl) in rs]
+            sc += [pscen(n, m, ck=ck, glow=gl, deadline=900, j=8) for (n, m, ck, gl) in rb]
+        return [(n, a + ["rm=1"]) for (n, a) in sc]
     small = [
         ("a_ck1", A, 1, 0), ("a_ck2", A, 2, 0), ("a_ck3", A, 3, 0), ("a_ck1_glow", A, 1, 1),
         ("b3_ck1", _pm(3, [7, 0, 1], [7, 2, 1], 3), 1, 0),
@@ -204,6 +226,40 @@ def proc_part(pid, d, tier, san=False, part="all"):
         # quick scenarios are sized to be enumerated completely in seconds; on an overloaded machine one may still hit its deadline:
         # that is reported in the evidence (exhaustive: false, per scenario), not raised
     return reps, m, viol
+
+
+PROCR_RULE = ("h_proc remote part (rm=1): the same step function with the LPs spread over 2 nodes by the runtime's own lid_to_nid(); what an LP "
+              "sends to the other node goes through the real mpi_remote_msg_send()/mpi_remote_anti_msg_send() (distributed/mpi.c, gvt.h id and "
+              "sequence bits) into a wire pool, and a step delivers one wire message through the real mpi_remote_msg_handle() on the destination "
+              "node; EVERY order of wire deliveries, local deliveries, process_msg() calls and legal GVT announcements up to complete-state "
+              "equality, so remote anti-messages overtake their events (early anti-messages) and meet them processed, queued or rolled back; "
+              "additional oracles: a remote anti-message is only sent for a live remote send, no early anti-message is left at quiescence, "
+              "MPI_Mrecv buffer >= message size, destination node = node of the destination LP")
+
+
+def procr_part(pid, d, tier, san=False):
+    """h_proc built against the real distributed/mpi.c (remote=True), scenario part 'remote'."""
+    b = build_proc(os.path.join(d, "procr"), san=san, name="h_procr", remote=True)
+    reps, m, viol = vc.rsched_scenarios(pid, "h_procr", b, proc_scenarios(tier, "remote"), d, workers=6 if tier == "quick" else 3)
+    if not viol:
+        for k in ("rollbacks", "remote_deliveries", "remote_anti_deliveries", "early_remote_antis", "commits_checked", "quiescent_ends",
+                  "rollbacks_after_fossil"):
+            if counters_nz(m, k) == 0:
+                raise vc.EngineError(f"vacuous: remote h_proc never saw '{k}'")
+    return reps, m, viol
+
+
+def add_procr(cov, pm, preps):
+    cov["evaluations"] += pm["executions"]
+    cov["traces_validated_against_impl"] += pm["executions"]
+    cov["states"] += pm["new_choice_points"]
+    cov["transitions"] += counters_sum(pm, "steps")
+    cov["rule"] += ". " + PROCR_RULE
+    cov["h_proc_remote"] = proc_summary(pm, preps)
+
+
+def is_procr_replay(path):
+    return os.path.basename(path).startswith("px_r_")
 
 
 def proc_summary(m, reps):
